@@ -153,6 +153,15 @@ def compare(op: str, a, b):
             FACTS.generic_inequalities.append(f"{ra} != {rb}")
         return True
     s = FACTS.sign(d)
+    if s is None and getattr(FACTS, "generic_tiny", False):
+        # "|x| < epsilon" clean-up tests on a symbolic (generic, non-degenerate) value: a non-constant magnitude is not tiny
+        for big, small, sg in ((ra, rb, 1), (rb, ra, -1)):
+            if small.is_const() and abs(small.const_value()) <= Fraction(1, 10 ** 9) and not big.is_const():
+                names = big.num.atoms() if big.den.is_const() and len(big.num.terms) == 1 else set()
+                if len(names) == 1 and next(iter(names)).startswith("abs("):
+                    (m, c), = big.num.terms.items()
+                    FACTS.generic_inequalities.append(f"{big} > {small} (generic magnitude)")
+                    s = sg * ((c > 0) - (c < 0))
     if s is None:
         raise Unsupported(f"cannot decide sign of {d} (comparison {op})")
     return {"lt": s < 0, "le": s <= 0, "gt": s > 0, "ge": s >= 0}[op]
@@ -515,6 +524,18 @@ class STensor:
         if not isinstance(key, tuple):
             key = (key,)
         key = list(key)
+        if len(key) == 1 and isinstance(key[0], STensor) and key[0].dtype is BOOL and key[0].ndim > 0:
+            m = key[0]
+            if list(m.shape) != list(self.shape[:m.ndim]):
+                raise InterpError("IndexError", f"boolean index of shape {tuple(m.shape)} does not match tensor of shape {tuple(self.shape)}")
+            inner = _numel(self.shape[m.ndim:])
+            sel: List[int] = []
+            cnt = 0
+            for pos, flag in enumerate(m.flat()):
+                if _truth(flag):
+                    sel.extend(self.idx[pos * inner:(pos + 1) * inner])
+                    cnt += 1
+            return sel, [cnt] + list(self.shape[m.ndim:])
         for i, k in enumerate(key):
             if hasattr(k, "cls") and hasattr(k, "value") and isinstance(getattr(k, "value"), int):
                 key[i] = k = k.value  # IntEnum member used as index
@@ -1262,6 +1283,12 @@ def sfunc(name: str, x, *more) -> Rat:
             n, d = math.isqrt(v.numerator), math.isqrt(v.denominator)
             if n * n == v.numerator and d * d == v.denominator:
                 return Rat.of(Fraction(n, d))
+    if name == "sqrt" and not x.is_const():
+        r = _monomial_sqrt(x)
+        if r is not None:
+            sg = FACTS.sign(r)
+            if sg is not None:
+                return r if sg >= 0 else -r
     # inverse pairs f(g(x)) -> x
     inv = _INVERSE.get(name)
     if inv is not None and len(args) == 1 and x.den.is_const() and len(x.num.terms) == 1:
@@ -1283,6 +1310,32 @@ def sfunc(name: str, x, *more) -> Rat:
 
 
 _FUNC_ARG: Dict[str, Rat] = {}
+
+
+def _monomial_sqrt(x: Rat) -> Optional[Rat]:
+    """r with r^2 == x when numerator and denominator are single terms with even exponents and square coefficients."""
+    import math
+
+    def half(p: Poly) -> Optional[Rat]:
+        if len(p.terms) != 1:
+            return None
+        (m, c), = p.terms.items()
+        c = Fraction(c)
+        if c <= 0:
+            return None
+        n, d = math.isqrt(c.numerator), math.isqrt(c.denominator)
+        if n * n != c.numerator or d * d != c.denominator:
+            return None
+        out = Rat.of(Fraction(n, d))
+        for a, e in m:
+            if e % 2:
+                return None
+            out = out * (Rat.atom(a) ** (e // 2))
+        return out
+    a, b = half(x.num), half(x.den)
+    if a is None or b is None:
+        return None
+    return a / b
 
 
 def _reset_caches() -> None:
